@@ -608,31 +608,125 @@ type varForm struct {
 	Name string
 	Tmpl string
 	Env  map[string]string
+	// mk builds the form around a variable called vn (nil: the classic forms, whose variable `V` is renamed textually)
+	mk func(vn string) (string, map[string]string)
+}
+
+// named gives the form with its own variable called vn (documents carry several templated leaves, each with its own variable).
+func (f varForm) named(vn string) (string, map[string]string) {
+	if f.mk != nil {
+		return f.mk(vn)
+	}
+	env := map[string]string{}
+	for k, e := range f.Env {
+		if k == "V" {
+			env[vn] = e
+		} else {
+			env[k] = e
+		}
+	}
+	return strings.Replace(strings.Replace(f.Tmpl, "${V}", "${"+vn+"}", 1), "$V", "$"+vn, 1), env
 }
 
 func isPlain(s string) bool { return !strings.ContainsAny(s, "${}\n\r") }
 
-func varForms(text string, split int) []varForm {
-	fs := []varForm{{"var", "${V}", map[string]string{"V": text}}, {"bare", "$V", map[string]string{"V": text}}}
-	if !strings.Contains(text, "$") {
-		fs = append(fs, varForm{"literal", text, map[string]string{}})
+func isNameByte(c rune) bool {
+	return c == '_' || (c >= '0' && c <= '9') || (c >= 'a' && c <= 'z') || (c >= 'A' && c <= 'Z')
+}
+
+func escDollar(s string) string { return strings.ReplaceAll(s, "$", "$$") }
+
+// tailForms (round 6): text = p + a + b written as  esc(p) + <operator expression evaluating to a> + tail(b), where `a` is
+// plain and tail(b) writes b with every `$` doubled (`tail-esc:*`) or with one chunk of b supplied through a bare `$W`
+// (`tail-bare:*`).  What follows a braced operator expression on the same line up to the last `}` is part of the same greedy
+// regexp match (template.DefaultReplacementAppliedFunc: `rest`) and gets a substitution pass of its own: escapes, bare
+// variables and closing braces in that tail are the input class the classic forms never produced.
+func tailForms(text string, split int) []varForm {
+	r := []rune(text)
+	i := split % (len(r) + 1)
+	run := 0
+	for i+run < len(r) && isPlain(string(r[i+run])) {
+		run++
 	}
-	if isPlain(text) {
-		fs = append(fs, varForm{"default", "${UNSET:-" + text + "}", map[string]string{}})
-		fs = append(fs, varForm{"default-empty", "${EMPTY:-" + text + "}", map[string]string{"EMPTY": ""}})
-		fs = append(fs, varForm{"alt", "${SET:+" + text + "}", map[string]string{"SET": "1"}})
-		r := []rune(text)
-		if len(r) > 0 {
-			i := split % (len(r) + 1)
-			j := i + (split/7)%(len(r)-i+1)
-			fs = append(fs, varForm{"split", string(r[:i]) + "${V}" + string(r[j:]), map[string]string{"V": string(r[i:j])}})
+	j := i + (split/7)%(run+1)
+	p, a, b := string(r[:i]), string(r[i:j]), r[j:]
+	type opx struct {
+		name, expr string
+		env        map[string]string
+	}
+	ops := []opx{
+		{"default", "${UNSET:-" + a + "}", map[string]string{}},
+		{"default-empty", "${EMPTY:-" + a + "}", map[string]string{"EMPTY": ""}},
+		{"alt", "${SET:+" + a + "}", map[string]string{"SET": "1"}},
+		{"default-unset", "${UNSET-" + a + "}", map[string]string{}},
+		{"alt-set", "${SET+" + a + "}", map[string]string{"SET": "1"}},
+	}
+	o := ops[(split/3)%len(ops)]
+	var fs []varForm
+	fs = append(fs, varForm{Name: "tail-esc:" + o.name, Tmpl: escDollar(p) + o.expr + escDollar(string(b)), Env: o.env,
+		mk: func(string) (string, map[string]string) { return escDollar(p) + o.expr + escDollar(string(b)), o.env }})
+	if len(b) > 0 {
+		// one chunk b[k:l] through a bare variable; the name must end where the chunk ends
+		k := (split / 11) % len(b)
+		l := k + 1 + (split/13)%(len(b)-k)
+		for l < len(b) && isNameByte(b[l]) {
+			l++
 		}
+		b1, w, b2 := string(b[:k]), string(b[k:l]), string(b[l:])
+		mk := func(vn string) (string, map[string]string) {
+			env := map[string]string{vn: w}
+			for k, e := range o.env {
+				env[k] = e
+			}
+			return escDollar(p) + o.expr + escDollar(b1) + "$" + vn + escDollar(b2), env
+		}
+		t, e := mk("V")
+		fs = append(fs, varForm{Name: "tail-bare:" + o.name, Tmpl: t, Env: e, mk: mk})
 	}
 	return fs
 }
 
+func isTailForm(f varForm) bool { return strings.HasPrefix(f.Name, "tail-") }
+
+func varForms(text string, split int) []varForm {
+	fs := []varForm{{Name: "var", Tmpl: "${V}", Env: map[string]string{"V": text}}, {Name: "bare", Tmpl: "$V", Env: map[string]string{"V": text}}}
+	if !strings.Contains(text, "$") {
+		fs = append(fs, varForm{Name: "literal", Tmpl: text, Env: map[string]string{}})
+	}
+	if isPlain(text) {
+		fs = append(fs, varForm{Name: "default", Tmpl: "${UNSET:-" + text + "}", Env: map[string]string{}})
+		fs = append(fs, varForm{Name: "default-empty", Tmpl: "${EMPTY:-" + text + "}", Env: map[string]string{"EMPTY": ""}})
+		fs = append(fs, varForm{Name: "alt", Tmpl: "${SET:+" + text + "}", Env: map[string]string{"SET": "1"}})
+		r := []rune(text)
+		if len(r) > 0 {
+			i := split % (len(r) + 1)
+			j := i + (split/7)%(len(r)-i+1)
+			fs = append(fs, varForm{Name: "split", Tmpl: string(r[:i]) + "${V}" + string(r[j:]), Env: map[string]string{"V": string(r[i:j])}})
+		}
+	}
+	return append(fs, tailForms(text, split)...)
+}
+
+// c08TailTexts: literal texts whose tail (after a plain stretch) holds `$`, closing braces, both — the texts the tail forms
+// are about (a shell one-liner with awk fields, a Go/Jinja-like template, stray braces).
+var c08TailTexts = []string{"awk '{print $1}' f", "a $ }", "x $HOME }", "{$}", "1}$}", "cd /app && echo ${PWD} }", "v} $$ }", "}", "a}b", "{a}", "$}", "$x}y", "7 }",
+	"run x y}", "{{.Name}} costs $5}", "a}$", "yes}", "k=v; f() { echo $1; }", "é}$世}", "$$}", "a${b}c}"}
+
+// rndTailText: seeded soup over the alphabet that matters to the template regexp.
+func rndTailText(rng interface{ Intn(int) int }) string {
+	alpha := []string{"a", "1", " ", "$", "{", "}", "}", "$", ":", "-", "_", "x", "?", "+"}
+	n := 1 + rng.Intn(9)
+	var b strings.Builder
+	for i := 0; i < n; i++ {
+		b.WriteString(alpha[rng.Intn(len(alpha))])
+	}
+	return b.String()
+}
+
 var c08StringsValid = []string{"", "x", "a b", "nginx:1.2", "$$", "a$$b", "${A}", "$A", "${A:-d}", "${B:-${A}}", "$", "$ x", "${A:-a}b}", "pre${A}post",
-	"true", "yes", "5", "0.5", "-3", "line1\nline2${A}", "é世", "a.b", "${E:-}", "${E-z}", "${A:+alt}", "$$${A}", "${U:-u}", "${U-}"}
+	"true", "yes", "5", "0.5", "-3", "line1\nline2${A}", "é世", "a.b", "${E:-}", "${E-z}", "${A:+alt}", "$$${A}", "${U:-u}", "${U-}",
+	// round 6: text after an operator expression inside the same greedy match (`rest` of DefaultReplacementAppliedFunc)
+	"${U:-x} $$ }", "${U:-x} $A }", "${A:+y}$$}", "${E-z}$A}}", "${U-x}$$1}", "a${E:-d} {$$}", "${A:-x} } $$ ${B:-y}", "${U:-x}$N}$$", "${A:+y} $ }", "${U:-${A}} $$ }"}
 var c08StringsBad = []string{"${U:?need}", "${U?}", "${", "${A", "${1}", "${}", "${A!}", "${N}", "${T}"}
 var c08Strings = append(append([]string{}, c08StringsValid...), c08StringsBad...)
 var c08Envs = []map[string]string{
@@ -756,6 +850,9 @@ func runC08(ctx *core.Ctx) {
 	for _, pat := range pats {
 		for ti, text := range texts {
 			for _, f := range varForms(text, ti) {
+				if isTailForm(f) && (ti+len(pat))%6 != 0 {
+					continue
+				}
 				ctx.Count("row×text×" + f.Name)
 				ctx.Add("interpolate", interpArgs{Tree: core.EncodeVal(instantiate(pat, "svc", f.Tmpl)), Env: f.Env})
 			}
@@ -852,9 +949,16 @@ func runC08(ctx *core.Ctx) {
 				fs := varForms(text, ctx.Rng.Intn(1000))
 				f := fs[ctx.Rng.Intn(len(fs))]
 				vn := fmt.Sprintf("V%d", j)
-				leaf = strings.Replace(strings.Replace(f.Tmpl, "${V}", "${"+vn+"}", 1), "$V", "$"+vn, 1)
-				if v, ok := f.Env["V"]; ok {
-					env[vn] = v
+				tm, fenv := f.named(vn)
+				leaf = tm
+				for k, e := range fenv {
+					if k != "EMPTY" && k != "SET" {
+						env[k] = e
+					}
+				}
+				if isTailForm(f) {
+					delete(env, "UNSET")
+					ctx.Count("random-tree-leaf:" + f.Name)
 				}
 			}
 			mergeInto(t, instantiate(pat, []string{"a", "b", "s.1"}[ctx.Rng.Intn(3)], leaf))
